@@ -168,9 +168,32 @@ def main():
                 if d:
                     failures.append({"class": "cache", "input": {"model": name, "options": opts}, "observed": d,
                                      "expected": "cached model equal to a fresh compile"})
+    # compiled shared libraries, after an option change in the same folder: the libraries of the first save lie in the folder when
+    # the second save generates its own
+    for name, first, second in [("ParamVec", {}, {"replace_parameter_values": True}), ("AliasDelay", {"detect_aliases": True}, {})][: (1 if tier == "quick" else 2)]:
+        cases += 1
+        with tempfile.TemporaryDirectory() as tmp:
+            with open(os.path.join(tmp, name + ".mo"), "w") as f:
+                f.write(MODELS[name])
+            past = time.time() - 1000
+            os.utime(os.path.join(tmp, name + ".mo"), (past, past))
+            try:
+                transfer_model(tmp, name, dict(first, cache=False, codegen=True))
+                transfer_model(tmp, name, dict(second, cache=False, codegen=True))
+                cached = transfer_model(tmp, name, dict(second, cache=False, codegen=True))
+                fresh = transfer_model(tmp, name, dict(second, cache=False, codegen=False, expand_mx=True))
+                if type(cached).__name__ != "CachedModel":
+                    d = "third call did not load the compiled libraries (got %s)" % type(cached).__name__
+                else:
+                    d = diff(fingerprint(fresh, np.random.RandomState(seed + 7)), fingerprint(cached, np.random.RandomState(seed + 7)))
+            except BaseException as e:  # noqa
+                d = "%s: %s" % (type(e).__name__, str(e)[:150])
+            if d:
+                failures.append({"class": "cache", "input": {"model": name, "history": ["transfer_model(codegen, %r)" % first, "transfer_model(codegen, %r)" % second, "transfer_model(codegen, %r)" % second]},
+                                 "observed": d, "expected": "model loaded from the compiled libraries equal to a fresh compile with the current options"})
     if payload.get("mode") == "bounded":
         print(json.dumps({"performed": True, "cases": cases, "distinct_nontrivial": cases, "failures": failures[:4],
-                          "rule": "models with vectors/matrices before scalars, parameter-dependent attributes, aliases, delay and string parameters x option sets: the real transfer_model(cache=True) result (loaded from the cache file) is compared with a fresh compile on names, order, shapes, Python types, every attribute at random parameter values, outputs, delay states, aliases and the residual / initial residual / metadata functions at random points",
+                          "rule": "models with vectors/matrices before scalars, parameter-dependent attributes, aliases, delay and string parameters x option sets: the real transfer_model(cache=True) result (loaded from the cache file) is compared with a fresh compile on names, order, shapes, Python types, every attribute at random parameter values, outputs, delay states, aliases and the residual / initial residual / metadata functions at random points; plus code-generated libraries loaded after an option change in the same folder",
                           "bound": "%d model/option pairs, one random point each (seed %d)" % (cases, seed)}))
     else:
         f = failures[0] if failures else None
